@@ -21,8 +21,8 @@ I64_MIN, I64_MAX = -2 ** 63, 2 ** 63 - 1
 
 HEADER = """import datetime, decimal, enum, ipaddress, uuid
 from dataclasses import dataclass, field
-from typing import (Annotated, Any, Dict, FrozenSet, List, Literal, Mapping, NamedTuple, Optional, Sequence, Set, Tuple,
-                    TypedDict, Union)
+from typing import (Annotated, Any, Dict, FrozenSet, List, Literal, Mapping, NamedTuple, Optional, Self, Sequence, Set,
+                    Tuple, TypedDict, Union)
 from mashumaro import DataClassDictMixin
 from mashumaro.config import ADD_DIALECT_SUPPORT, BaseConfig
 from mashumaro.dialect import Dialect
@@ -132,9 +132,9 @@ def ann(t: T) -> str:
     if k == "dbase":
         return t.name
     if k == "selfopt":
-        return f'Optional["{t.name}"]'
+        return "Optional[Self]" if t.args and t.args[0] else f'Optional["{t.name}"]'
     if k == "selflist":
-        return f'List["{t.name}"]'
+        return "List[Self]" if t.args and t.args[0] else f'List["{t.name}"]'
     raise ValueError(k)
 
 
@@ -238,7 +238,7 @@ class Schema:
         return T("td", name=name)
 
     def new_dc(self, depth, root=False, prefix="f", base: str | None = None, tag=None, discr_field=None,
-               force_native=False, need_mixin=False) -> T:
+               force_native=False, need_mixin=False, force_self=False) -> T:
         """tag = (field name, literal): adds `field: Literal[lit] = lit`; discr_field: class-level
         Config.discriminator on that field (include_subtypes); force_native: one field of a type that some
         format dialect declares native"""
@@ -253,11 +253,14 @@ class Schema:
             fields.append([f"{prefix}{name.lower()}_nat", T(r.choice(NATIVE_LEAVES)), None])
         if tag is not None:
             fields.append([tag[0], T("lit", [tag[1]]), repr(tag[1])])
-        if not self.small and base is None and discr_field is None and r.random() < 0.10:
+        if not self.small and base is None and discr_field is None and (force_self or r.random() < 0.10):
+            # a field referring to the class itself: by name (forward reference, always the declaring class) or
+            # by typing.Self (the class of the instance: a subclass nests instances of the subclass)
+            use_self = force_self or r.random() < 0.5
             if r.random() < 0.6:
-                fields.append([f"{prefix}{name.lower()}_self", T("selfopt", name=name), "None"])
+                fields.append([f"{prefix}{name.lower()}_self", T("selfopt", use_self, name=name), "None"])
             else:
-                fields.append([f"{prefix}{name.lower()}_self", T("selflist", name=name), "field(default_factory=list)"])
+                fields.append([f"{prefix}{name.lower()}_self", T("selflist", use_self, name=name), "field(default_factory=list)"])
         # defaults: Optional fields mostly default to None; a few stay required, a few get a non-None default
         for f in fields:
             t = f[1]
@@ -285,6 +288,8 @@ class Schema:
                     if f[2] is None:
                         if f[1].kind == "opt":
                             f[2] = "None"
+                        elif f[1].kind in ("int", "str", "bool", "float") and r.random() < 0.7:
+                            f[2] = {"int": "42", "str": "'dflt'", "bool": "False", "float": "0.5"}[f[1].kind]
                         else:
                             f[1] = T("opt", f[1]) if f[1].kind != "opt" else f[1]
                             f[2] = "None"
@@ -293,6 +298,8 @@ class Schema:
             bases += self.all_mixins() if base is None or True else []
         elif base is None and need_mixin:   # subclasses must own their to_dict for polymorphic fields
             bases += r.choice([["DataClassDictMixin"], self.all_mixins()])
+        elif base is None and force_self:
+            bases += r.choice([self.all_mixins(), self.all_mixins(), ["DataClassMessagePackMixin"], ["DataClassTOMLMixin"], []])
         elif base is None:
             bases += r.choice([[], [], ["DataClassDictMixin"], self.all_mixins(),
                                ["DataClassMessagePackMixin"], ["DataClassTOMLMixin"]])
@@ -379,7 +386,7 @@ class Schema:
         if c == "dc":
             return self.new_dc(depth - 1)
         if c == "child":
-            b = self.new_dc(depth - 1)
+            b = self.new_dc(depth - 1, force_self=r.random() < 0.4)
             return self.new_dc(depth - 1, base=b.name)
         if c == "nt":
             return self.new_nt(depth)
@@ -555,7 +562,11 @@ def gen_value(t: T, S: Schema, mod, r, depth=0):
         return [] if deep else [gen_value(T("dc", name=t.name), S, mod, r, depth + 3) for _ in range(r.choice([1, 2]))]
     if k == "dc":
         cls = getattr(mod, t.name)
-        kw = {f: gen_value(ft, S, mod, r, depth + 1) for f, ft, _ in S.classes[t.name]["fields"]}
+        kw = {}
+        for f, ft, _ in S.classes[t.name]["fields"]:
+            if ft.kind in ("selfopt", "selflist") and ft.args and ft.args[0]:
+                ft = T(ft.kind, True, name=t.name)      # typing.Self: the class of this instance
+            kw[f] = gen_value(ft, S, mod, r, depth + 1)
         return cls(**kw)
     if k == "nt":
         cls = getattr(mod, t.name)
